@@ -646,17 +646,15 @@ fn tcp<T: S14>(ty: Ty, bytes: &[u8], chunks: &[u16], pages: u8, ctx: &mut Ctx) {
                 }
                 remaining = 0;
             }
-            while remaining > 0 {
+            // calls are made only while bytes are certainly queued (the source's read blocks
+            // otherwise); how much one read takes is the source's business
+            while remaining > 0 && client_rx_queue(client_port, port).unwrap_or(0) > 0 {
                 outp.drain(usize::MAX);
-                let before = outp.available();
                 match src.work() {
                     Ok(rustradio::block::BlockRet::EOF) => return Err("EOF while the connection is open and data is queued".into()),
                     Ok(_) => {}
                     Err(e) => return Err(format!("work: {e}")),
                 }
-                let _ = before;
-                // a read takes at most `capacity` bytes
-                remaining = remaining.saturating_sub(outp.capacity());
                 guard += 1;
                 if guard > 1000 {
                     return Err("no progress".into());
